@@ -452,20 +452,57 @@ Proof.
   intros ds. apply Hmain. eapply in_R_inv; eauto. intros v z Hv. discriminate.
 Qed.
 
-(* ---------------- untrusted exploration: computes a candidate R ---------------- *)
+(* ---------------- untrusted exploration: computes a candidate R ----------------
+   Nothing below is used by a soundness theorem: the checkers accept any R.
+   States are stored with the environment restricted to the control variables
+   that are live at the block (may be read before being assigned again);
+   a wrong liveness set can only make a checker reject. *)
 Definition env_eqb (a b : env) : bool := sub a b && sub b a.
 
 Definition state_mem (s : state) (R : list state) : bool :=
   existsb (fun r => Z.eqb (fst r) (fst s) && env_eqb (snd r) (snd s)) R.
 
-Definition succ_states (fuel : nat) (s : state) : list state :=
+Definition uses (b : node) : list Z :=
+  match n_kind b with KBranch _ v _ => [v] | _ => [] end.
+Definition defs (b : node) : list Z :=
+  match n_kind b with KAssign a => map fst a | _ => [] end.
+Definition lmap := list (name * list Z).
+Definition live_in (lm : lmap) (x : name) : list Z :=
+  match zassoc x lm with Some l => l | None => [] end.
+Definition zunion (a b : list Z) : list Z := a ++ filter (fun v => negb (zmem v a)) b.
+
+Definition live_step (lm : lmap) (b : node) : list Z :=
+  let out := fold_left (fun acc t =>
+                          match resolve (n_name b) t with
+                          | Some c => zunion acc (live_in lm c)
+                          | None => acc
+                          end) (n_jt b) [] in
+  zunion (uses b) (filter (fun v => negb (zmem v (defs b))) out).
+
+Definition lm_size (lm : lmap) : nat := fold_left (fun acc p => (acc + length (snd p))%nat) lm O.
+
+Fixpoint live_iter (rounds : nat) (leaves : list node) (lm : lmap) : lmap :=
+  match rounds with
+  | O => lm
+  | S r =>
+    let lm' := map (fun b => (n_name b, live_step lm b)) leaves in
+    if Nat.eqb (lm_size lm) (lm_size lm') then lm' else live_iter r leaves lm'
+  end.
+
+Definition liveness : lmap :=
+  let leaves := filter (fun n => negb (is_region n)) h in
+  live_iter (S (length h)) leaves (map (fun b => (n_name b, uses b)) leaves).
+
+Definition restrict (lv : list Z) (e : env) : env := filter (fun p => zmem (fst p) lv) e.
+
+Definition succ_states (lm : lmap) (fuel : nat) (s : state) : list state :=
   let '(n, a) := s in
   match find h n with
   | Some b =>
     flat_map (fun t =>
                 match resolve n t with
                 | Some c => match srun fuel c a with
-                            | Reached m a' => [(m, a')]
+                            | Reached m a' => [(m, restrict (live_in lm m) a')]
                             | _ => []
                             end
                 | None => []
@@ -473,16 +510,20 @@ Definition succ_states (fuel : nat) (s : state) : list state :=
   | None => []
   end.
 
-Fixpoint explore (steps : nat) (fuel : nat) (todo : list state) (R : list state) : list state :=
+Fixpoint explore_from (lm : lmap) (steps : nat) (fuel : nat) (todo : list state) (R : list state)
+  : list state :=
   match steps with
   | O => R
   | S k =>
     match todo with
     | [] => R
     | s :: rest =>
-      if state_mem s R then explore k fuel rest R
-      else explore k fuel (succ_states fuel s ++ rest) (s :: R)
+      if state_mem s R then explore_from lm k fuel rest R
+      else explore_from lm k fuel (succ_states lm fuel s ++ rest) (s :: R)
     end
   end.
+
+Definition explore (steps fuel : nat) (todo R : list state) : list state :=
+  explore_from liveness steps fuel todo R.
 
 End Walk.
